@@ -90,7 +90,7 @@ theorem C15_references (U : Universe) (name : Str) (hne : name ≠ []) (hnl : '\
       reMatch_exact handleMarker hne hnl, ht]
 
 example : transformArg exU (exStr "${m.o}") = .ok (.obj 7) ∧
-    transformArg exU (exStr "$res{a.r}") = .ok (.loaded 5) ∧
+    transformArg exU (exStr "$res{a.r}") = .ok (.loaded 5 1) ∧
     transformArg exU (exStr "$handle{a.r}") = .ok (.handle 5) :=
   ⟨(C15_references exU "m.o".toList (by decide) (by decide)).2.1 _ rfl trivial,
    (C15_references exU "a.r".toList (by decide) (by decide)).2.2.1 rfl,
@@ -100,7 +100,7 @@ example : transformArg exU (exStr "${m.o}") = .ok (.obj 7) ∧
 `"$res{a.r}"` ends up as the loaded resource, not as the named string. -/
 theorem C15_references_guard_needed :
     exU.resolve "m.s".toList = .ok (exStr "$res{a.r}") ∧
-    transformArg exU (exStr "${m.s}") = .ok (.loaded 5) ∧
+    transformArg exU (exStr "${m.s}") = .ok (.loaded 5 1) ∧
     ¬ NotResourceRef (exStr "$res{a.r}") := by
   refine ⟨rfl, rfl, ?_⟩
   simp only [exStr, NotResourceRef]
